@@ -38,7 +38,7 @@ TIERS = {
     "thorough": {"shards": 16, "cases": 200000, "probes": 16, "timeout": 3000},
 }
 FLOORS = {
-    "quick": {"counts": {"rejections_checked": 9000, "replay_comparisons": 1500}, "keys": 250},
+    "quick": {"counts": {"rejections_checked": 9000, "replay_comparisons": 1000}, "keys": 250},
     "thorough": {"counts": {"rejections_checked": 400000}, "keys": 350},
 }
 NAN, INF = float("nan"), float("inf")
